@@ -24,7 +24,7 @@ def generate(tier):
         cfgs = lambda c: list(range(6))  # noqa: E731
         timeout = 240
     return cell_obligations('C01', 'c01_obl', check_call, cells, cfgs,
-                            timeout)
+                            timeout, dbg_for_resume=True)
 
 
 def run(tier):
